@@ -232,6 +232,37 @@ def case_config(case):
     return {"v": v[:5], "nt": runs if runs else 1, "key": core.canon(case), "n": n, "obs": {"tower_step_runs_compared": runs, "towers": len(cfg.towers), "steps": cfg.met.n_timesteps}}
 
 
+def case_full_output_sweep(case):
+    """full_output over a lattice of measurement heights, layer counts and forcings (the generated column's node nz sits at
+    the measurement height only up to rounding): the run returns every node 0..nz, exactly as the pipeline with levels=range(nz+1)"""
+    import copy
+
+    from bldfm.config_parser import parse_config_dict
+    from bldfm.interface import run_bldfm_single
+
+    v = []
+    n = 0
+    zm = case["zm"]
+    for nz, us, mol, fp in itertools.product((3, 4, 8, 12), (0.2, 0.3, 0.45), (-100.0, -30.0, 1e9, 80.0), (True, False)):
+        raw = copy.deepcopy(DEFAULT)
+        raw["domain"].update({"nz": nz, "full_output": True})
+        raw["towers"][0]["z_m"] = zm
+        raw["met"].update({"ustar": us, "mol": mol})
+        raw["solver"] = {"footprint": fp}
+        cfg = parse_config_dict(raw)
+        n += 2
+        with warnings.catch_warnings():
+            warnings.simplefilter("ignore")
+            r = run_bldfm_single(cfg, cfg.towers[0])
+            (g, c, f), m = manual(cfg, cfg.towers[0], 0, None)
+        if np.shape(r["conc"]) != np.shape(c) or np.shape(c)[0] != nz + 1 or not (np.array_equal(r["conc"], c) and np.array_equal(r["flx"], f) and np.array_equal(r["grid"][2], g[2])):
+            v.append({"sub": "full-output", "sig": "full-output/%s" % ("shape" if np.shape(r["conc"]) != np.shape(c) else "values"),
+                      "msg": "full_output, z_m=%g nz=%d ustar=%g mol=%g %s: the run returns shape %s, the pipeline with levels 0..%d returns %s" % (zm, nz, us, mol, "footprint" if fp else "dispersion", np.shape(r["conc"]), nz, np.shape(c))})
+            if len(v) >= 3:
+                break
+    return {"v": v, "nt": True, "n": n}
+
+
 def case_broken_cache(case):
     """a run that is handed a cache whose directory disappears (or turns into a plain file) in the middle of a series:
     every later step either raises or is the pipeline for THAT step - never another step's result"""
@@ -280,6 +311,50 @@ def case_broken_cache(case):
         elif os.path.exists(cdir):
             os.unlink(cdir)
     return {"v": v, "nt": True, "n": n}
+
+
+def case_cache_race(case):
+    """run == hand-written pipeline while two pool workers (forked, each with its own cache object on ./.bldfm_cache) store
+    their footprints at the same time, under every preemption-bounded interleaving of their file operations; and for the
+    serial run that is served from the directory afterwards"""
+    import copy
+
+    from bldfm.cache import GreensFunctionCache
+    from bldfm.config_parser import parse_config_dict
+    from bldfm.interface import run_bldfm_single
+    from vf import cacherace
+
+    raw, _ = apply([("towers", None, TWO), ("solver", "footprint", True), ("met", "wind_dir", [10.0, 200.0, 300.0])])
+    cfg = parse_config_dict(copy.deepcopy(raw))
+    want = {}
+    for tw in cfg.towers:
+        (g, c, f), m = manual(cfg, tw, case["step"], None)
+        want[tw.name] = (g, c, f, m)
+
+    def diff(name, r):
+        g, c, f, m = want[name]
+        if not (np.shape(r["conc"]) == np.shape(c) and np.array_equal(r["conc"], c) and np.array_equal(r["flx"], f)):
+            return "fields of tower %s differ from the pipeline" % name
+        if r["tower_name"] != name or r["timestamp"] != m["timestamp"] or r["params"] != m:
+            return "labels of tower %s differ from the pipeline" % name
+        return None
+
+    def mk(k):
+        def run(cdir):
+            r = run_bldfm_single(cfg, cfg.towers[k], met_index=case["step"], cache=GreensFunctionCache(cdir))
+            return {kk: r[kk] for kk in ("conc", "flx", "tower_name", "timestamp", "params")}
+        return run
+
+    def after(cdir):
+        msgs = []
+        cache = GreensFunctionCache(cdir)
+        for tw in cfg.towers:
+            d = diff(tw.name, run_bldfm_single(cfg, tw, met_index=case["step"], cache=cache))
+            if d:
+                msgs.append("a later run served from the directory: " + d)
+        return msgs
+
+    return cacherace.explore([(tw.name, mk(k)) for k, tw in enumerate(cfg.towers)], diff, after, bound=2, what="single runs of two towers, step %d, with a shared cache directory" % case["step"])
 
 
 MUT_OPS = ["run0", "run1", "set-wind_dir", "set-ustar", "set-halo", "edit-returned-params", "move-tower", "rescale-domain", "set-levels", "set-full_output", "set-nz"]
@@ -417,5 +492,7 @@ def run(ctx):
     md = 4 if ctx.tier == "quick" else 5
     mh = [{"ops": list(h)} for d in range(2, md + 1) for h in itertools.product(MUT_OPS, repeat=d) if h[-1].startswith("run") and sum(o.startswith("run") for o in h) >= 2]
     ctx.run_cases(case_mutation_history, mh, sub="config-mutation-sessions")
+    ctx.run_cases(case_full_output_sweep, [{"zm": z_} for z_ in (2.0, 3.0, 5.0, 7.5, 10.0, 2.5, 12.0)], sub="full_output over heights, layer counts and forcings", chunksize=1)
+    core.run_forked(ctx, case_cache_race, [{"step": 1}], sub="two workers sharing the cache directory (all interleavings, <= 2 preemptions)", nproc=4, timeout=1800)
     bc = [{"order": list(o), "break_at": b, "how": h} for o in ((0, 1, 2), (2, 1, 0), (1, 1, 2), (0, 2, 2)) for b in (0, 1, 2) for h in ("gone", "file")]
     ctx.run_cases(case_broken_cache, bc, sub="cache directory breaks in the middle of a series")
